@@ -92,6 +92,9 @@ func (p *pct) next(step int, cur int, runnable []int) int {
 
 const maxSteps = 400000
 
+// hangTimeout bounds one case: a case takes milliseconds, the lock diagnosis at most 8 s.
+const hangTimeout = 60 * time.Second
+
 type sched struct {
 	tasks    []*task
 	cur      *task
@@ -105,6 +108,7 @@ type sched struct {
 	// any real deployment
 	blockedOnStore string
 	diag           atomic.Bool
+	hung           bool         // the tasks never finished
 	left           atomic.Int32 // tasks not yet finished (used once blocked)
 	step           int
 	switches       int
@@ -302,7 +306,12 @@ func (s *sched) run() {
 	s.cur = s.tasks[first]
 	s.cur.started = true
 	s.cur.wake <- struct{}{}
-	<-s.main
+	select {
+	case <-s.main:
+	case <-time.After(hangTimeout):
+		s.hung = true
+		return
+	}
 	if s.aborted {
 		// a very long case: beyond the cap the running task simply keeps the processor and the
 		// others follow one after the other; the recorded schedule says exactly that
